@@ -50,16 +50,6 @@ def parseConfig {α : Type} (k : Kind) (cfg : Cfg) (save : Handler α) (ctx : α
     (input : List UInt8) : Result α :=
   loop k cfg save ctx prev {} { rest := input }
 
-open Events in
-/-- the event a handler call stands for -/
-def mkEvent (ret : Int) (s : St) : Event :=
-  let p := s.path.elems
-  if ret == 1 then .sect p
-  else if ret == 2 then .end_ p
-  else if ret == 3 then .opt p none
-  else if ret == 7 then .opt p (some s.name)
-  else .data p s.name
-
 /-- recording handler: appends the event (newest first); refuses the `failAt`-th call -/
 def record (failAt : Option Nat) : Handler (List Events.Event) :=
   fun evs s _ ret => if failAt == some evs.length then none else some (mkEvent ret s :: evs)
